@@ -260,46 +260,46 @@ func init() {
 					}
 				}})
 			// (1e) long loops: 15..5000 elements or passes, a break or a skip at a late pass, an inner loop per pass
-		longLens := []int{15, 16, 17, 63, 64, 65, 255, 256, 257, 1000, 1023, 1024, 1025, 5000}
-		secs = append(secs, core.Section{Name: "long-loops", Exhaustive: true, N: len(longLens) * 5,
-			Run: func(c *core.Ctx, i int) {
-				n := longLens[i%len(longLens)]
-				variant := i / len(longLens)
-				el := make([]model.Value, n)
-				for k := range el {
-					el[k] = model.Int(int64(k * 3))
-				}
-				data := map[string]model.Value{"xs": model.Arr(el...), "n": model.Int(int64(n))}
-				meta := []model.Stmt{model.Text{S: "["}, model.Print{E: loopField("index")}, model.Text{S: ","}, model.Print{E: loopField("iter")}, model.Text{S: ","},
-					model.Print{E: loopField("first")}, model.Text{S: ","}, model.Print{E: loopField("last")}, model.Text{S: ":"}, model.Print{E: model.Var{Name: "v"}}, model.Text{S: "]"}}
-				var prog []model.Stmt
-				switch variant {
-				case 0: // @each over the data array, the whole tuple per pass
-					prog = []model.Stmt{model.Each{Var: "v", Arr: model.Var{Name: "xs"}, Body: meta, Else: []model.Stmt{model.Text{S: "none"}}}}
-				case 1: // a break at the last but one pass and a skip of the pass before it
-					body := append([]model.Stmt{
-						model.ContinueIf{E: model.Binary{Op: "==", L: loopField("iter"), R: model.Binary{Op: "-", L: model.Var{Name: "n"}, R: model.Lit{V: model.Int(2)}}}},
-						model.BreakIf{E: model.Binary{Op: "==", L: loopField("index"), R: model.Binary{Op: "-", L: model.Var{Name: "n"}, R: model.Lit{V: model.Int(2)}}}}}, meta...)
-					prog = []model.Stmt{model.Each{Var: "v", Arr: model.Var{Name: "xs"}, Body: body}}
-				case 2: // @for with n passes
-					prog = []model.Stmt{model.For{Init: &model.Assign{Name: "v", E: model.Lit{V: model.Int(0)}}, Cond: model.Binary{Op: "<", L: model.Var{Name: "v"}, R: model.Var{Name: "n"}},
-						Post: model.Print{E: model.Postfix{Op: "++", X: model.Var{Name: "v"}}}, Body: []model.Stmt{model.Text{S: "("}, model.Print{E: model.Var{Name: "v"}}, model.Text{S: ")"}}}}
-				case 3: // an inner loop in every pass: the outer loop object is back after each
-					if n > 300 {
-						n = 300
-						data["xs"] = model.Arr(el[:n]...)
+			longLens := []int{15, 16, 17, 63, 64, 65, 255, 256, 257, 1000, 1023, 1024, 1025, 5000}
+			secs = append(secs, core.Section{Name: "long-loops", Exhaustive: true, N: len(longLens) * 5,
+				Run: func(c *core.Ctx, i int) {
+					n := longLens[i%len(longLens)]
+					variant := i / len(longLens)
+					el := make([]model.Value, n)
+					for k := range el {
+						el[k] = model.Int(int64(k * 3))
 					}
-					inner := model.Each{Var: "w", Arr: intArr(1, 2), Body: []model.Stmt{model.Print{E: loopField("index")}}}
-					prog = []model.Stmt{model.Each{Var: "v", Arr: model.Var{Name: "xs"}, Body: []model.Stmt{model.Text{S: "<"}, model.Print{E: loopField("iter")}, inner, model.Print{E: loopField("iter")}, model.Print{E: loopField("last")}, model.Text{S: ">"}}}}
-				default: // the array written as a literal
-					if n > 1025 {
-						n = 1025
+					data := map[string]model.Value{"xs": model.Arr(el...), "n": model.Int(int64(n))}
+					meta := []model.Stmt{model.Text{S: "["}, model.Print{E: loopField("index")}, model.Text{S: ","}, model.Print{E: loopField("iter")}, model.Text{S: ","},
+						model.Print{E: loopField("first")}, model.Text{S: ","}, model.Print{E: loopField("last")}, model.Text{S: ":"}, model.Print{E: model.Var{Name: "v"}}, model.Text{S: "]"}}
+					var prog []model.Stmt
+					switch variant {
+					case 0: // @each over the data array, the whole tuple per pass
+						prog = []model.Stmt{model.Each{Var: "v", Arr: model.Var{Name: "xs"}, Body: meta, Else: []model.Stmt{model.Text{S: "none"}}}}
+					case 1: // a break at the last but one pass and a skip of the pass before it
+						body := append([]model.Stmt{
+							model.ContinueIf{E: model.Binary{Op: "==", L: loopField("iter"), R: model.Binary{Op: "-", L: model.Var{Name: "n"}, R: model.Lit{V: model.Int(2)}}}},
+							model.BreakIf{E: model.Binary{Op: "==", L: loopField("index"), R: model.Binary{Op: "-", L: model.Var{Name: "n"}, R: model.Lit{V: model.Int(2)}}}}}, meta...)
+						prog = []model.Stmt{model.Each{Var: "v", Arr: model.Var{Name: "xs"}, Body: body}}
+					case 2: // @for with n passes
+						prog = []model.Stmt{model.For{Init: &model.Assign{Name: "v", E: model.Lit{V: model.Int(0)}}, Cond: model.Binary{Op: "<", L: model.Var{Name: "v"}, R: model.Var{Name: "n"}},
+							Post: model.Print{E: model.Postfix{Op: "++", X: model.Var{Name: "v"}}}, Body: []model.Stmt{model.Text{S: "("}, model.Print{E: model.Var{Name: "v"}}, model.Text{S: ")"}}}}
+					case 3: // an inner loop in every pass: the outer loop object is back after each
+						if n > 300 {
+							n = 300
+							data["xs"] = model.Arr(el[:n]...)
+						}
+						inner := model.Each{Var: "w", Arr: intArr(1, 2), Body: []model.Stmt{model.Print{E: loopField("index")}}}
+						prog = []model.Stmt{model.Each{Var: "v", Arr: model.Var{Name: "xs"}, Body: []model.Stmt{model.Text{S: "<"}, model.Print{E: loopField("iter")}, inner, model.Print{E: loopField("iter")}, model.Print{E: loopField("last")}, model.Text{S: ">"}}}}
+					default: // the array written as a literal
+						if n > 1025 {
+							n = 1025
+						}
+						prog = []model.Stmt{model.Each{Var: "v", Arr: literalOf(model.Arr(el[:n]...)), Body: []model.Stmt{model.Print{E: loopField("index")}, model.Text{S: ":"}, model.Print{E: model.Var{Name: "v"}}, model.If{Conds: []model.Expr{loopField("last")}, Bodies: [][]model.Stmt{{model.Text{S: "."}}}, Else: []model.Stmt{model.Text{S: ","}}}}}}
 					}
-					prog = []model.Stmt{model.Each{Var: "v", Arr: literalOf(model.Arr(el[:n]...)), Body: []model.Stmt{model.Print{E: loopField("index")}, model.Text{S: ":"}, model.Print{E: model.Var{Name: "v"}}, model.If{Conds: []model.Expr{loopField("last")}, Bodies: [][]model.Stmt{{model.Text{S: "."}}}, Else: []model.Stmt{model.Text{S: ","}}}}}}
-				}
-				judgeProgram(c, prog, data, "long-loop", false)
-			}})
-		// (2) every position of every control directive in a body of up to 4 items
+					judgeProgram(c, prog, data, "long-loop", false)
+				}})
+			// (2) every position of every control directive in a body of up to 4 items
 			secs = append(secs, core.Section{Name: "control-positions", Exhaustive: true, N: 2 * 4 * 5 * 5 * 3 * 2,
 				Run: func(c *core.Ctx, i int) {
 					hasElse := i%2 == 1
